@@ -43,6 +43,41 @@ class DuckJson:
         return json.dumps({k: x for k, x in self._v.items() if not (exclude_none and x is None)}, separators=(",", ":"))
 
 
+class _BadStr(Exception):
+    """an exception whose str() / repr() raise"""
+
+    def __str__(self):
+        raise RuntimeError("str() of this exception raises")
+
+    __repr__ = __str__
+
+
+EXC_CLASSES = {
+    "TypeError": TypeError, "ValueError": ValueError, "KeyError": KeyError, "IndexError": IndexError,
+    "AttributeError": AttributeError, "RuntimeError": RuntimeError, "RecursionError": RecursionError, "OSError": OSError,
+    "Exception": Exception, "ZeroDivisionError": ZeroDivisionError, "UnicodeError": UnicodeError,
+    "AssertionError": AssertionError, "LookupError": LookupError, "BrokenPipeError": BrokenPipeError, "BadStr": _BadStr,
+}
+RAISE_WHERE = ["model_dump_json", "model_dump", "getattr", "dict-get"]
+
+
+def raising_object(cls_name, where):
+    """an outbound object whose serialisation raises the given exception class at the given place"""
+    exc = EXC_CLASSES[cls_name]
+
+    def boom(*a, **k):
+        raise exc("%s {0} cannot serialise")
+
+    if where == "model_dump_json":
+        return type("RaisesInModelDumpJson", (), {"model_dump_json": boom})()
+    if where == "model_dump":
+        return type("RaisesInModelDump", (), {"model_dump": boom})()
+    if where == "getattr":
+        return type("RaisesInGetattr", (), {"__getattr__": lambda self, name: boom()})()
+    # a dict (sub)class instance: serialised natively, then `.get("method")` raises
+    return type("RaisesInGet", (dict,), {"get": boom})({"jsonrpc": "2.0", "method": "m"})
+
+
 def build(item):
     """spec -> object handed to `write_stream.send(...)`"""
     k = item["k"]
@@ -91,6 +126,27 @@ def build(item):
             return J.JSONRPCRequest(id=1, method="m", params={"x": object()})
         if how == "lone-surrogate":
             return '{"jsonrpc":"2.0","method":"\ud800"}'
+        if how == "deep-dict":  # nested deeper than any serialiser's (and repr's) recursion limit
+            d = cur = {}
+            for _ in range(3000):
+                cur["a"] = {}
+                cur = cur["a"]
+            return {"jsonrpc": "2.0", "method": "m", "params": d}
+        if how == "deep-list":
+            d = cur = []
+            for _ in range(3000):
+                cur.append([])
+                cur = cur[0]
+            return {"jsonrpc": "2.0", "id": 1, "result": {"l": d}}
+        if how == "repr-raises":  # unserialisable AND its repr() raises
+            return {"jsonrpc": "2.0", "method": "m", "params": {"x": type("NoRepr", (), {"__repr__": lambda self: 1 / 0})()}}
+        if how == "self-reference":
+            d = {"jsonrpc": "2.0", "method": "m", "params": {}}
+            d["params"]["self"] = d
+            return d
+        if how.startswith("raises:"):
+            _, cls_name, where = how.split(":")
+            return raising_object(cls_name, where)
         raise ValueError(how)
     raise ValueError(k)
 
